@@ -1,6 +1,7 @@
 """C08 — results are plain JSON in the documented simplified form, under every option."""
 import json
 import math
+import re
 
 import common as C
 import pool
@@ -88,8 +89,15 @@ def run(ctx):
         for _ in range(combos_per):
             combos.append((ctx.rng.choice(["common", "mysql", "sqlserver", "bigquery"]),
                            ctx.rng.choice(list(NULL_OPTS)), ctx.rng.choice(list(calls)), ctx.rng.choice([None, "*"])))
+        # the rename map is an option too (parse takes fmap=, the dialect entry points take the same map as is_null=):
+        # every function name of the statement and the operators a NULL comparison folds to
+        fnames = sorted(set(x.lower() for x in re.findall(r"([A-Za-z_][A-Za-z_0-9]*)\s*\(", st["sql"])))[:6]
+        fmap_all = {n: n + "_r" for n in fnames + ["missing", "exists", "not", "neg", "coalesce"]}
         for dialect, nopt, mode, ac in combos:
             kw = {"calls": calls[mode], "all_columns": ac}
+            use_fmap = ctx.rng.random() < 0.4
+            if use_fmap:
+                kw["fmap" if dialect == "common" else "is_null"] = fmap_all
             if nopt != "default":
                 kw["null"] = NULL_OPTS[nopt]
             NULL_VALUES.clear()
@@ -125,7 +133,7 @@ def run(ctx):
                 rep.count("finding", key)
                 rep.finding(key, "parse(%r, %s/null=%s/calls=%s/all_columns=%s): %s at %s" % (st["sql"][:150], dialect, nopt, mode, ac, kind, path),
                             {"sql": st["sql"], "dialect": dialect, "null": nopt, "calls": mode, "all_columns": ac,
-                             "problem": kind, "path": path})
+                             "problem": kind, "path": path, "fmap": fmap_all if use_fmap else None})
 
 
 def search(ctx):
@@ -143,6 +151,8 @@ def replay(ctx, p):
     NULL_VALUES.clear()
     if p["null"] == "container":
         NULL_VALUES["container"] = kw["null"]
+    if p.get("fmap"):
+        kw["fmap" if p["dialect"] == "common" else "is_null"] = p["fmap"]
     r = R.parse_raw(p["sql"], p["dialect"], **kw)
     print(r)
     if r[0] != "ok":
